@@ -128,8 +128,11 @@ def decodeOpen (b : Bytes) : PRes OpenMsg :=
 an error -/
 def encodeCapsParam (cs : List Cap) : Option Bytes :=
   if cs.length > 0 then
-    let caps := (cs.map encodeCap).flatten
-    some ([Gen.capabilityOptionalParamType, len8 caps.length] ++ caps)
+    if cs.any (fun c => c.value.length > 255) then none
+    else
+      let caps := (cs.map encodeCap).flatten
+      if caps.length > 255 then none
+      else some ([Gen.capabilityOptionalParamType, len8 caps.length] ++ caps)
   else none
 
 /-- parameter loop of `(*openMessage).encode` -/
@@ -148,6 +151,7 @@ def encodeOpenBody (o : OpenMsg) : Option Bytes :=
   match encodeParams o.params with
   | none => none
   | some params =>
+    if params.length > 255 then none else
     some ([o.version] ++ be16Bytes o.asn ++ be16Bytes o.holdTime ++ be32Bytes o.bgpID
           ++ [len8 params.length] ++ params)
 
